@@ -63,7 +63,7 @@ func buildScript(name string) (*origin.Site, string) {
 			{Kind: media.AAC, TimeScale: 48000, AAC: aac, Base: 480000, SampleDur: 1024}}
 		mustRendition(rng, site, base+"stream.m3u8", "fmp4", tr, 10, 5)
 		return site, base + "stream.m3u8"
-	case "fmp4-multi":
+	case "fmp4-multi", "fmp4-multi-slowlead":
 		mustRendition(rng, site, base+"video.m3u8", "fmp4", []*origin.Track{{Kind: media.H264, TimeScale: 90000, Params: testParamsH264, Base: 900000, SampleDur: 1800}}, 10, 5)
 		mustRendition(rng, site, base+"audio.m3u8", "fmp4", []*origin.Track{{Kind: media.AAC, TimeScale: 48000, AAC: aac, Base: 480000, SampleDur: 1024}}, 20, 5)
 		site.Static[base+"index.m3u8"] = "#EXTM3U\n#EXT-X-VERSION:6\n#EXT-X-MEDIA:TYPE=AUDIO,GROUP-ID=\"a\",NAME=\"a\",DEFAULT=YES,URI=\"audio.m3u8\"\n" +
@@ -155,6 +155,20 @@ func runC12Case(c c12Case) *c12Outcome {
 	}
 	site, entry := buildScript(c.Script)
 	srv := &origin.Server{H: site.Handler(), Faults: map[int]origin.Fault{}}
+	if c.Script == "fmp4-multi-slowlead" {
+		// the leading (video) stream's segments arrive 40 ms late: the audio rendition is always ahead
+		// and waits for the leading stream's time origin when a fault or Close ends the client
+		base := srv.H
+		srv.H = func(req *http.Request, i int) origin.Response {
+			r := base(req, i)
+			if strings.Contains(req.URL.Path, "r10_seg_") && r.Status == 200 || strings.Contains(req.URL.Path, "r10_seg_") && r.Status == 0 {
+				ch := make(chan struct{})
+				go func() { time.Sleep(40 * time.Millisecond); close(ch) }()
+				r.Block = ch
+			}
+			return r
+		}
+	}
 	if c.Fault != "none" && c.Fault != "ontracks" {
 		srv.Faults[c.At] = origin.Fault{Kind: c.Fault}
 	}
@@ -349,7 +363,7 @@ func enumerateC12(script string, baseRequests, baseUnits int, tier string) []c12
 
 func checkC12(tier string, seed int64) int {
 	rep := ev.NewReporter("C12")
-	scripts := []string{"ts", "fmp4", "fmp4-multi", "ll", "ts-long", "ts-multi"}
+	scripts := []string{"ts", "fmp4", "fmp4-multi", "ll", "ts-long", "ts-multi", "fmp4-multi-slowlead"}
 	obs := map[string]int{}
 	sigs := map[string]bool{}
 	var samples []any
